@@ -35,6 +35,9 @@ Excluded / agnostic corners (the statement does not fix them):
   * dict keys with a filter argument (`{"k"|default:"x": 1}`, documented as unsupported);
   * spreading a non-iterable into a list / a non-mapping into a dict / a mapping with
     non-string keys onto the tag; unhashable dict keys; keys starting with `:`;
+  * spread of a translation string (`*_("t")`, rejected by design: "Cannot combine translation
+    and spread syntax") and a dict-spread operand with a filter argument (`{**d|default:x}`:
+    the `:` reads as the key colon, pinned by test_spread_with_colon_interpreted_as_key);
   * positional after keyword and the error class of repeated keywords (C11).  A keyword given
     twice is accepted under either reading: TypeError/TemplateSyntaxError (Python call) or the
     right-most value (docs of the spread operator) - anything else is a violation;
@@ -330,9 +333,23 @@ def stream_B(tier, marker):
     one, k, x, d = g.leaf(g.I(1)), g.leaf(g.S("k")), g.leaf(g.V("x")), g.leaf(g.V("d"))
     fill = [one] if tier == "quick" else [one, g.leaf(g.T("t" + marker))]
     for v in widths_values(fill, [k], [x], [d], 2, 2):
-        if v[0] == "leaf":
-            continue
-        yield ("Bw", (("pos", v),))
+        if v[0] != "leaf":
+            yield ("Bw", (("pos", v),))
+    if tier == "thorough":  # <= 3 entries per container
+        for v in widths_values([one], [k], [x], [d], 2, 3):
+            if v[0] != "leaf" and _max_width(v) == 3:
+                yield ("Bw", (("pos", v),))
+
+
+def _max_width(v):
+    if v[0] == "leaf":
+        return 0
+    m = len(v[1])
+    for e in v[1]:
+        for sub in e[1:]:
+            if isinstance(sub, tuple):
+                m = max(m, _max_width(sub))
+    return m
 
 
 def _only_uses(v, allowed):
@@ -406,13 +423,13 @@ PART_LAYOUTS = {
 }
 
 
-def _layouts(kind):
+def _layouts(kind, tier="thorough"):
     main = g.main_layouts()
     if kind == "main":
         return main
     if kind == "main-lite":
         return [l for l in main if l.name in ("compact", "padded", "newline", "all")]
-    return main + g.onehot_layouts()
+    return main + g.onehot_layouts(tier)
 
 
 def all_cases(tier, marker):
@@ -424,7 +441,7 @@ def _worker_task(t):
     w, W, (tier, marker) = t
     _setup()
     ctxs = g.contexts(marker)
-    lay = {k: _layouts(v) for k, v in PART_LAYOUTS.items()}
+    lay = {k: _layouts(v, tier) for k, v in PART_LAYOUTS.items()}
     aggs = {}
     for i, (part, args) in enumerate(all_cases(tier, marker)):
         if i % W != w:
@@ -453,11 +470,11 @@ def run(ctx):
             total.setdefault(k, par.Agg()).merge(a)
     names = {"A": "leaf_x_frame", "B": "structure", "C": "argument_lists", "D": "documented_invalid"}
     bounds = {
-        "A": {"leaves": len(g.leaves_full(marker)), "frames": len(g.frames()), "layouts": len(_layouts("main+onehot")), "seams": 2, "contexts": 2},
-        "B": {"max_nodes": 5 if ctx.tier == "thorough" else 4, "max_depth": 3, "per_container": {"entries": 2, "depth": 2},
+        "A": {"leaves": len(g.leaves_full(marker)), "frames": len(g.frames()), "layouts": len(_layouts("main+onehot", ctx.tier)), "seams": 2, "contexts": 2},
+        "B": {"max_nodes": 5 if ctx.tier == "thorough" else 4, "max_depth": 3, "per_container": {"entries": 3 if ctx.tier == "thorough" else 2, "depth": 2},
               "layouts": len(_layouts("main")), "seams": 2, "contexts": 2},
         "C": {"max_arguments": 3 if ctx.tier == "thorough" else 2, "items": len(arg_items(ctx.tier, marker)), "layouts": len(_layouts("main"))},
-        "D": {"forms": len(g.invalid_sites(marker)), "layouts": len(_layouts("main+onehot")), "seams": 2},
+        "D": {"forms": len(g.invalid_sites(marker)), "layouts": len(_layouts("main+onehot", ctx.tier)), "seams": 2},
     }
     for k in ("A", "B", "C", "D"):
         a = total.get(k) or par.Agg()
